@@ -94,5 +94,5 @@ Theorem processor_status_codes_agree :
 Proof. repeat split; reflexivity. Qed.
 
 (* ---------- crawl engine: the size at which a visit commits its batch of admitted children ---------- *)
-Theorem engine_child_batch_size_agrees : N.of_nat flush_size = gen_child_batch_size.
-Proof. vm_compute. reflexivity. Qed.
+Theorem engine_child_batch_size_agrees : flush_size = N.to_nat gen_child_batch_size /\ (1 <= flush_size)%nat.
+Proof. split; [reflexivity|]. apply Nat.leb_le. vm_compute. reflexivity. Qed.
